@@ -102,6 +102,33 @@ func c20Vocabulary(w *core.W) {
 	for _, c := range list {
 		c20ValidCase(w, c, names[c])
 	}
+	// membership predicates: IsOneOf is plain membership (the undefined type is a member of
+	// nothing), IsScalar holds exactly for the types whose values are JSON scalars
+	for _, t := range all {
+		w.S.Evaluations++
+		if t.IsOneOf() {
+			w.Violate(core.Violation{Clause: "membership-predicates", Input: string(t), Detail: "IsOneOf() with an empty list is true"})
+		}
+		for _, a := range all {
+			for _, b := range all {
+				want := t != schema.SchemaTypeUndefined && (t == a || t == b)
+				if t.IsOneOf(a, b) != want {
+					w.Violate(core.Violation{Clause: "membership-predicates", Input: fmt.Sprintf("%q in {%q, %q}", t, a, b), Detail: fmt.Sprintf("IsOneOf=%v, membership says %v", !want, want)})
+				}
+			}
+		}
+		scalar := false
+		switch family(t) {
+		case "string", "float", "integer", "boolean", "null":
+			scalar = true
+		}
+		if t == schema.SchemaTypeEnum {
+			scalar = true // the values of an enum are scalars
+		}
+		if t.IsScalar() != scalar {
+			w.Violate(core.Violation{Clause: "membership-predicates", Input: string(t), Detail: fmt.Sprintf("IsScalar()=%v, token type %q", t.IsScalar(), t.ToTokenType())})
+		}
+	}
 	// token types
 	for _, jt := range jnum.AllTypes {
 		w.S.Evaluations++
